@@ -208,7 +208,9 @@ def gen_node(rng: random.Random, depth: int, budget: _Budget, pool: str = "main"
         kids = [gen_node(rng, depth - 1, budget, pool, extras, 0.2) for _ in range(n)]
         return {"t": "Columns", "children": kids, "padding": _pad4(rng), "equal": rng.random() < 0.4,
                 "expand": rng.random() < 0.4, "column_first": rng.random() < 0.4, "right_to_left": rng.random() < 0.2,
-                "align": rng.choice([None, None] + ALIGN), "title": gen_title(rng)}
+                "align": rng.choice([None, None] + ALIGN), "title": gen_title(rng),
+                # an explicit column width is a valid option too; only the c14 (must-not-raise) pool uses it
+                "width": rng.choice([None, None, 1, 5, 30]) if pool == "c14" else None}
     if k == "Tree":
         def tree(level: int) -> Desc:
             n = 0 if level >= 2 else rng.choice([0, 1, 2, 2, 3])
@@ -548,7 +550,7 @@ def build(d: Desc):
     if t == "Columns":
         return Columns([build(c) for c in d["children"]], padding=tuple(d["padding"]), equal=d["equal"], expand=d["expand"],
                        column_first=d["column_first"], right_to_left=d.get("right_to_left", False), align=d.get("align"),
-                       title=d.get("title"))
+                       title=d.get("title"), width=d.get("width"))
     if t == "Group":
         return RenderGroup(*[build(c) for c in d["children"]], fit=d.get("fit", True))
     if t == "NoMeasure":
